@@ -12,6 +12,15 @@ FOCUS = {
          "subclass or alias of a documented class, keyword vs positional argument); (d) two library objects of the same class alive at "
          "once, or one object used, modified by the caller, and used again; (e) a default argument, module-level constant or class "
          "attribute that silently becomes shared or stale.",
+    'f': "This time prefer, in this order: (a) a change made of TWO small cooperating edits in different functions or files that each "
+         "look harmless alone (a producer and its consumer, a base class and a subclass, a constructor and a later method, the "
+         "package __init__ and a module); (b) inheritance and method resolution (a method moved to / overridden in a base class such "
+         "as Table, Omega, Potential, Closure, AtomicClosure; super() calls; an alias subclass that gains a member; class attributes "
+         "vs instance attributes; @property vs plain attribute; __eq__/__hash__/__len__/__iter__/__contains__ added to a library "
+         "class and silently changing how other code treats it); (c) the Space enumeration and comparisons with it (== vs is, "
+         "string vs enum, truthiness); (d) numerical-looking edits that are exact for the tested sizes only (integer division, "
+         "// vs /, int() truncation, range end points, len() vs shape[0], axis arguments, broadcasting of length-1 arrays); "
+         "(e) order of evaluation: a read that now happens before/after a write it used to follow/precede.",
 }
 
 
